@@ -81,3 +81,20 @@ PROPS["C03"] = {
     "stubs": COMMON_STUBS,
     "level_text": "translation validation: each program is compiled twice by the real compiler (with and without dead-code elimination) and both are executed symbolically on the same inputs; the optimizer itself is run on arbitrary small streams and its output is checked against a reachability reference",
 }
+
+PROPS["C09"] = {
+    "level": "model_checking",
+    "harness": ["C09_"],
+    "tiers": {
+        "quick": {"timeout": "20s", "maxsteps": 8000000, "bounds": "8 constructions (immutable/freeze of arrays and maps, nested, storage with spare capacity, module export, builtin-module table) x sequences of 1..2 operations from 18 array / 11 map operation templates (index/selector assignment, slicing + writes, append + writes, + + writes, copy + writes, splice, delete, for-in with writes, writes through nested/derived/wrapped values and through a function parameter); indices i, j, written value v and element payloads a, b are symbolic int64", "cross": 2},
+        "thorough": {"timeout": "60s", "maxsteps": 8000000, "bounds": "as quick (sequence length 1..2); freeze laws on 5 shapes incl. shared sub-structure", "cross": 3},
+    },
+    "reach": {"C09_Ops": ["ops"], "C09_Freeze": ["freeze"]},
+    "assumptions": [
+        "the written value v differs from every original element payload, so 'unchanged' is observable",
+        "for shallow-immutable values (immutable(...), module export, builtin table) only the value's own slots are protected: nested mutable containers may change (property: 'merely shallow-immutable')",
+        "no mutable alias of the storage exists before: constructions use fresh literals",
+    ],
+    "outside": "operation sequences longer than 2; user-defined Object types; pre-existing mutable aliases",
+    "stubs": COMMON_STUBS,
+}
